@@ -353,6 +353,13 @@ def check_wrapper(chk, base):
     sig_ok = isinstance(sig, ast.Name) and sig.id == "signatures"
     dflt_ok = False
     for st in A.walk_local(node, include_self=False):
+        # conditional-expression form: signatures = (1,) * len(charges) if signatures is None else signatures
+        if isinstance(st, ast.Assign) and A.text(st.targets[0]) == "signatures" and isinstance(st.value, ast.IfExp):
+            v = st.value
+            t = A.text(v.test)
+            dflt, keep = (v.body, v.orelse) if t == "signatures is None" else ((v.orelse, v.body) if t == "signatures is not None" else (None, None))
+            if dflt is not None and A.text(keep) == "signatures" and A.text(inl.expand(dflt)) in (f"(1,) * len({ch})", f"len({ch}) * (1,)"):
+                dflt_ok = True
         if isinstance(st, ast.If) and A.text(st.test) == "signatures is None":
             for b in st.body:
                 if isinstance(b, ast.Assign) and A.text(b.targets[0]) == "signatures" and \
